@@ -25,6 +25,14 @@ CLAIMED = {
  "C14": core("DynamicRootSet is part of the collector model: per set object the slot table (occupied/vacant, refcount, free list) transcribed from Slots::add/inc/dec, the set's strong children DERIVED from its occupied slots, handles as records outside the arena that survive it.  TLC checks slot-table well-formedness (refcount = handles - 1, free list = vacant slots), 'slot reuse never retargets a live handle', keeps-alive and (through C02_Exact) collectability for every interleaving of new_set / stash / clone / drop / remove_set with collection increments up to the stated length; class witnesses (phase x colour of set and object x slot reuse x refcount) are replayed in the real crate, where after every operation every handle is presented to every set (contains, try_fetch, fetch) and the monitor checks acceptance, identity of the fetched object, harmless handle operations after the set or arena is gone, plus C01/C02 with stashed objects as roots."),
  "C20": {**core("TwoArenas.tla composes two instances of the collector model on disjoint variables (frame property C20_Frame checked by TLC) and enumerates their interleavings, including dropping one arena in every phase of the other; the harness runs them on two real arenas of one thread with different pacing, re-observes the OTHER arena after every operation, and the monitor requires (r1) that values are destructed/released only by operations on their own arena, (r2) that phase, count and debt of an arena are unchanged by anything that happened since its own last operation, and each arena's C01-C05 rules."), "category": "exploration",
          "note": "Model checking of the composition is vacuous by construction and is not what is claimed; the claim is trace validation of interleaved real executions drawn from the model (exploration). Foreign handles are covered under C14 (handles of one set presented to another set)."},
+ "C15": {"engine": "shapes", "category": "model_checking", "design_ref": "DESIGN.md 6 (C15/C16)",
+   "text": "TraceShape.tla states the law as two operators -- Reported(shape): how many strong and weak pointers a value must report (fields of the active variant only, never a require_static field) and NeedsTrace(shape) -- and TLC enumerates 861 derived shapes (named / tuple / unit structs, up to 3 fields x 4 leaf kinds x every type-correct subset of require_static positions x generic first field with and without a bound override; enums with unit / tuple / named variants x each active variant).  A generator renders each shape into a type with #[derive(Collect)] and a function that fills it with uniquely identifiable pointers; the program traces it with a recording implementation of the public Trace trait and reads NEEDS_TRACE; ShapeTrace.tla validates counts, the exact pointer sets and NEEDS_TRACE against the law.  The derive's rejections (missing / duplicated mode, no_drop on a Drop type, require_static on a branded type or an enum variant, non-Collect field, several lifetimes without gc_lifetime) are compile probes, each with an accepted twin.",
+   "note": "Exhaustive over the stated shape space only; rejections rest on rustc judging probes.",
+   "technique": "TLC enumeration of TraceShape.tla's derived shapes + generated Rust traced with a recording Trace impl + TLC trace validation (ShapeTrace.tla) + rustc compile probes"},
+ "C16": {"engine": "shapes", "category": "model_checking", "design_ref": "DESIGN.md 6 (C15/C16)",
+   "text": "The same law over the provided impls: TLC enumerates 1126 shapes -- 28 container kinds (Option, Result, arrays, boxed slices, Box, Rc, Arc, Vec, VecDeque, LinkedList, BinaryHeap, BTreeMap/Set, HashMap/Set, Lock, RefLock, OnceLock, SliceWithHeader, hashbrown HashMap/HashSet/HashTable, indexmap IndexMap/IndexSet, slotmap SlotMap, SmallVec, EnumMap) x every leaf kind (Gc, GcWeak, pointer-free, Option<Gc>, Vec<Gc>, Box<GcWeak>) in every type-parameter position x element counts 0..3, and tuples of arity 1..16 with the pointer at every position -- each rendered, traced and validated as for C15; 'NEEDS_TRACE = false only for pointer-free types' is probed by trying to instantiate Cell, RefCell, &'static T, Static<T> and a branded hasher with arena pointers (must be rejected; twins accepted).",
+   "note": "Quick tier builds all optional features at once; thorough also each alone and none. Depth: containers of leaves where a leaf may be a small nested container.",
+   "technique": "TLC enumeration of TraceShape.tla's container and tuple shapes + generated Rust traced with a recording Trace impl + TLC trace validation (ShapeTrace.tla) + rustc compile probes"},
  "C17": {"engine": "sat", "category": "model_checking", "design_ref": "DESIGN.md 6 (C17)",
    "text": "Layout.tla is an integer transcription of the crate's layout computation (Layout::extend / pad_to_align, META_HEADER_LAYOUT, prefix_header_layout, SliceWithHeader::layout).  TLC checks, for every point of a grid of sized values (23 sizes x 9 alignments up to 4096), slices, strs and slices-with-header (zero-sized headers, elements and lengths included), that the value is aligned, that header and metadata lie inside the block, aligned and disjoint from the value, and that the block is exactly offset + size; it prints the grid, each point is allocated through the public API under the tracking allocator (guard bytes), its bytes and address are re-checked across collections in every phase, it is released, and LayoutTrace.tla validates block layout, value offset, release layout, guard bytes and the fat/thin/raw round trips against Expect().",
    "note": "Exhaustive over the stated grid only; GcHeader 16/8 assumed for this target.",
@@ -79,6 +87,9 @@ m = {
    {"name": "sat", "path": "/verif/spec/Layout.tla /verif/spec/Builder.tla /verif/spec/Convert.tla (+ MC_* and *Trace modules) /verif/sat /verif/runner/engines_sat.py",
     "serves_properties": ["C17", "C18", "C19"],
     "kind_free_text": "finite spaces (layout grid, builder life cycles, conversion chains) enumerated and invariant-checked by TLC, executed element by element in the real crate, observations validated by TLC trace specifications"},
+   {"name": "shapes", "path": "/verif/spec/TraceShape.tla /verif/spec/MC_TraceShape.tla /verif/spec/ShapeTrace.tla /verif/gen/render_shapes.py /verif/shapes",
+    "serves_properties": ["C15", "C16"],
+    "kind_free_text": "the tracing law as TLA+ operators over a finite shape space enumerated by TLC; each shape rendered to Rust, traced with a recording Trace implementation; observations validated by TLC; rejections by rustc compile probes"},
    {"name": "pacing", "path": "/verif/spec/MC_Pacing.tla /verif/spec/GcHeap.tla /verif/spec/GcMonitor.tla /verif/harness/src/driver.rs",
     "serves_properties": ["C09", "C10"],
     "kind_free_text": "the collector model with exact (scaled-integer) debt arithmetic checked by TLC; behaviours replayed with equality of debts; seeded random driver; traces validated by TLC against the monitor"},
